@@ -1790,9 +1790,17 @@ def _aggregate_columns(cols, agg_cols):
 def _aggregate_statistics_to_file(stats):
     """Aggregate RG information to file level."""
 
+    def _agg_ignoring_missing(agg):
+        # a row group whose column chunk holds only nulls has no min / max
+        def _agg(values):
+            values = [v for v in values if v is not None]
+            return agg(values) if values else None
+
+        return _agg
+
     agg_stats = {
-        "min": min,
-        "max": max,
+        "min": _agg_ignoring_missing(min),
+        "max": _agg_ignoring_missing(max),
     }
     agg_cols = {
         "total_compressed_size": sum,
